@@ -692,7 +692,7 @@ Definition enumerate_chk (ver : version) (dbg : bool) (d : ddnnf) (A : cfg) (amo
     match preprocess d A s with
     | None => EOk (enumerate d A amount c s)
     | Some s1 =>
-      let A' := sort_abs A in
+      let A' := enum_key A in
       let '(s2, r) := execute_query d A' s1 in
       if 0 <? r then
         let rtv := rt d s2 in
